@@ -685,6 +685,7 @@ PANIC_TABLE = [
     (r"frame::serial::write_handshake_syn", r"\[T\]::clone_from_slice", r".*", "writer side, fixed-size literal into a MAX_FRAME_SIZE buffer; not fed by network input", _lk_none),
     (r"server::Server::(handle_handshake_ack|handle_disconnect|handle_disconnect_ack|handle_data|handle_ack|handle_sync|handle_event|handle_events|step_active_clients|flush_active_clients|drop)", "RefCell::borrow_mut", r".*", "one RemoteClient borrow at a time inside the server (C03.P.refcell); an application holding its own RefMut across step() is API misuse", _lk_none),
     (r"server::Server::step::\{closure#0\}", "RefCell::borrow", r".*", "retain predicate; no other borrow live (C03.P.refcell)", _lk_none),
+    (r"(<frame::Frame as frame::serial::Serialize>::read|frame::serial::read_\w+)", r"\[T\]::split_at", r".*", "split point within the slice: discharged as a `split` obligation of the parser index proof C03.I", _lk_none),
 ]
 
 
@@ -1132,6 +1133,21 @@ def _len_bounds(R, alt, base):
     L = re.escape("[T]::len(%s)" % base)
     lb = 0
     known = set()
+    # a sub-slice of a slice whose length is bounded (the normaliser composes nested slices into one range of the
+    # original slice): x[len-c ..] has exactly c elements, x[a .. len-c] has len-a-c, x[a ..] has len-a
+    m = re.fullmatch(r"(.+)\[RangeFrom\{sub\(\[T\]::len\((.+)\),(\d+)\)\}\]", base)
+    if m and m.group(1) == m.group(2):
+        plb, _ = _len_bounds(R, alt, m.group(1))
+        if plb >= int(m.group(3)):
+            lb = max(lb, int(m.group(3)))
+    m = re.fullmatch(r"(.+)\[Range\{(\d+),sub\(\[T\]::len\((.+)\),(\d+)\)\}\]", base)
+    if m and m.group(1) == m.group(3):
+        plb, _ = _len_bounds(R, alt, m.group(1))
+        lb = max(lb, plb - int(m.group(2)) - int(m.group(4)))
+    m = re.fullmatch(r"(.+)\[RangeFrom\{(\d+)\}\]", base)
+    if m:
+        plb, _ = _len_bounds(R, alt, m.group(1))
+        lb = max(lb, plb - int(m.group(2)))
     for lit in alt:
         m = re.fullmatch(r"eq\(%s,(.*)\)" % L, lit) or re.fullmatch(r"eq\((.*),%s\)" % L, lit)
         if m:
@@ -1217,6 +1233,8 @@ def check_parser(cx, iid="C03.I"):
                     if base is None:
                         continue  # fixed-size array (writer-side literal), not an input slice
                     obl = ("idx", base, show(b.operand_expr(t["index"])))
+                elif t["k"] == "call" and t.get("fn") and R.short(t["fn"]).endswith("[T]::split_at") and len(t["args"]) == 2:
+                    obl = ("split", show(b.operand_expr(t["args"][0])), show(b.operand_expr(t["args"][1])))
                 elif t["k"] == "call" and t.get("fn") and re.search(r"::index(_mut)?$", R.short(t["fn"])) and len(t["args"]) == 2:
                     rng = b.operand_expr(t["args"][1])
                     if rng[0] == "agg" and rng[1].startswith("Range"):
@@ -1230,7 +1248,20 @@ def check_parser(cx, iid="C03.I"):
                 for alt in alts:
                     lb, known = _len_bounds(R, alt, obl[1])
                     Ls = "[T]::len(%s)" % obl[1]
-                    if obl[0] == "idx":
+                    if obl[0] == "split":
+                        mid = obl[2]
+                        v = _cval(R, mid)
+                        m = re.fullmatch(r"sub\(%s,([\w:]+)\)" % re.escape(Ls), mid)
+                        c = _cval(R, m.group(1)) if m else None
+                        if v is not None:
+                            if not v <= lb:
+                                good, why = False, "split_at(%d) needs length >= %d, only >= %d is established" % (v, v, lb)
+                        elif c is not None:
+                            if not lb >= c:
+                                good, why = False, "split_at(len-%d) needs length >= %d, only >= %d is established" % (c, c, lb)
+                        else:
+                            good, why = False, "split point `%s` is not covered by the constant-arithmetic prover" % mid[:60]
+                    elif obl[0] == "idx":
                         ix = obl[2]
                         v = _cval(R, ix)
                         m = re.fullmatch(r"sub\(%s,(\d+)\)" % re.escape(Ls), ix)
@@ -1276,9 +1307,9 @@ def check_parser(cx, iid="C03.I"):
                             good, why = False, "range shape not covered"
                     if not good:
                         break
-                inst.site(b, loc, "%s %s" % (obl[0], (obl[2] if obl[0] == "idx" else show(obl[2]))[:60]), {"discharged": good})
+                inst.site(b, loc, "%s %s" % (obl[0], (obl[2] if obl[0] in ("idx", "split") else show(obl[2]))[:60]), {"discharged": good})
                 if not good:
-                    inst.violation(b.path, "%s %s" % (obl[0], norm_vars(obl[2] if obl[0] == "idx" else show(obl[2]))[:70]),
+                    inst.violation(b.path, "%s %s" % (obl[0], norm_vars(obl[2] if obl[0] in ("idx", "split") else show(obl[2]))[:70]),
                                    "a frame reader indexes its input out of range for some input length: " + why, at=b.span_at(loc))
     cx.extra["parser_index_obligations"] = nobl
 
@@ -1476,6 +1507,10 @@ def run(cx):
 
 
 SELFTEST = [
+    {"name": "re-sliced Frame::read (benign g8-3) with the length guard weakened to the CRC size",
+     "patch": __import__("os").path.join(__import__("os").path.dirname(__import__("os").path.dirname(__import__("os").path.abspath(__file__))), "benign", "g8-3", "patch.diff"),
+     "edits": [{"file": "src/frame/serial/mod.rs", "old": "if frame_len < FRAME_OVERHEAD {", "new": "if frame_len < FRAME_CRC_SIZE {"}],
+     "expect": ["C03.I"]},
     {"name": "restore resend_queue.pop() on a purge edge of the pending loop",
      "edits": [{"file": "src/half_connection/mod.rs",
                 "old": "                } else {\n                    self.pending_queue.pop_front();\n                    continue;\n                }\n            }\n        }\n\n        dfe.finalize();",
